@@ -313,6 +313,13 @@ fn parse_txt_payload(payload: &str) -> Result<Vec<ScionIpAddr>, TxtParseError> {
     Ok(addresses)
 }
 
+/// Verification hook (feature `verif-hooks`, off by default): the private TXT payload parser, i.e.
+/// the text after the `scion=v1;` prefix. Errors are returned as their display text.
+#[cfg(feature = "verif-hooks")]
+pub fn verif_parse_txt_payload(payload: &str) -> Result<Vec<ScionIpAddr>, String> {
+    parse_txt_payload(payload).map_err(|err| err.to_string())
+}
+
 fn txt_record_to_string(txt: &TXT) -> Result<String, InvalidEntry> {
     let bytes: Vec<u8> = txt
         .txt_data()
